@@ -118,6 +118,19 @@ def audit_dqm(d):
     if d.num_variable_interactions() != npairs or d.num_case_interactions() != ncase:
         return 'num_variable_interactions %r / num_case_interactions %r, counted %d / %d' % (
             d.num_variable_interactions(), d.num_case_interactions(), npairs, ncase)
+    # the variable adjacency recomputed from the case-level vectors alone
+    vec = d.to_numpy_vectors()
+    starts, irow, icol = [int(x) for x in vec[0]], vec[2][0], vec[2][1]
+    import bisect
+    want = {u: set() for u in L}
+    for rr, cc in zip(irow, icol):
+        u, v = L[bisect.bisect_right(starts, int(rr)) - 1], L[bisect.bisect_right(starts, int(cc)) - 1]
+        if u == v:
+            return 'case-level interaction inside variable %r' % (u,)
+        want[u].add(v); want[v].add(u)
+    for u in L:
+        if set(d.adj[u]) != want[u]:
+            return 'adj[%r] = %r but its cases interact with the cases of %r (to_numpy_vectors)' % (u, sorted(d.adj[u], key=repr), sorted(want[u], key=repr))
     return None
 """
 exec(AUDIT_SRC)
@@ -625,7 +638,7 @@ def dqm_history(r):
     adjacency, both lookup orders, variable adjacency, counts) and compared with an independent dict of exact fractions"""
     lines, ns, refs = [], {'dimod': dimod, 'np': np}, {}
     state = {'bad': None, 'site': 'DiscreteQuadraticModel construction'}
-    def do(line, site=None):
+    def do(line, site=None, post=None):
         if state['bad']:
             return
         lines.append(line)
@@ -639,6 +652,8 @@ def dqm_history(r):
             exec(line, ns)
         except Exception as e:
             state['bad'] = ('valid call raised', '`%s` raised %s: %s' % (line, type(e).__name__, e)); return
+        if post:
+            post()
         for name, ref in refs.items():
             d = ns[name]
             try:
@@ -670,7 +685,50 @@ def dqm_history(r):
         else:
             ref['quad'][(u, a, v, b)] = x
         do('%s.set_quadratic_case(%r, %d, %r, %d, %s)' % (name, u, a, v, b, num(x)), 'DiscreteQuadraticModel.set_quadratic_case')
-    labels = r.sample(['a', 'b', 'c', 0, 1, ('t', 1)], r.randint(2, 4))
+    def eqref(ref, terms, lag, const):
+        # lag * (sum_i a_i x_i + const)**2 expanded by hand; two cases of one variable never interact
+        for i, (u, a, x) in enumerate(terms):
+            ref['lin'][u][a] += lag * x * (2 * const + x)
+            for v, b, y in terms[i + 1:]:
+                if v != u:
+                    k = (v, b, u, a) if (v, b, u, a) in ref['quad'] else (u, a, v, b)
+                    ref['quad'][k] = ref['quad'].get(k, F(0)) + 2 * lag * x * y
+    def constraint(name, ineq):
+        # over a random SUBSET of the variables, so that a member can already have enough neighbours outside the constraint
+        ref = refs[name]
+        L = [v for v in ref['labels'] if not str(v).startswith('slack_')]
+        vs = r.sample(L, r.randint(2, len(L)))
+        cells = [(v, c) for v in vs for c in range(len(ref['lin'][v]))]
+        extra = [t for t in cells if r.random() < .3]
+        pick = [(v, r.randrange(len(ref['lin'][v]))) for v in vs]
+        pick += [t for t in extra if t not in pick]
+        lag = r.choice([F(1), F(2), F(1, 2)])
+        nbr = {v: set() for v in ref['labels']}
+        for (u, _a, v, _b) in ref['quad']:
+            nbr[u].add(v); nbr[v].add(u)
+        if any(len(nbr[v]) >= len(vs) - 1 and not (set(vs) - {v}) <= nbr[v] for v in vs):
+            state['crowded'] = state.get('crowded', 0) + 1      # a member with many neighbours, not all of them members
+        if not ineq:
+            terms = [(v, c, q4(r)) for v, c in pick]
+            const = q4(r)
+            eqref(ref, terms, lag, const)
+            do('%s.add_linear_equality_constraint([%s], %s, %s)' % (name, ', '.join('(%r, %d, %s)' % (v, c, num(x)) for v, c, x in terms), num(lag), num(const)),
+               'DiscreteQuadraticModel.add_linear_equality_constraint')
+            return
+        terms = [(v, c, F(r.randint(1, 3))) for v, c in pick]
+        ub = r.randint(1, int(sum(x for _, _, x in terms)) - 1)     # below the largest value: never trivially feasible, slack >= 1
+        state['nineq'] = state.get('nineq', 0) + 1
+        label = 'q%d' % state['nineq']
+        def post():
+            d = ns[name]
+            slack = [(v, int(c), F(int(x))) for v, c, x in ns['sl']]
+            for v in d.variables:
+                if v not in ref['lin']:
+                    ref['labels'].append(v); ref['lin'][v] = [F(0)] * d.num_cases(v)
+            eqref(ref, terms + slack, lag, F(-ub))
+        do('sl = %s.add_linear_inequality_constraint([%s], %s, %r, ub=%d)' % (name, ', '.join('(%r, %d, %d)' % (v, c, int(x)) for v, c, x in terms), num(lag), label, ub),
+           'DiscreteQuadraticModel.add_linear_inequality_constraint', post=post)
+    labels = r.sample(['a', 'b', 'c', 0, 1, ('t', 1)], r.randint(2, 5))
     ncases = {v: r.randint(1, 3) for v in labels}
     refs['d'] = dict(labels=[], lin={}, quad={})
     do('d = dimod.DiscreteQuadraticModel()')
@@ -691,6 +749,13 @@ def dqm_history(r):
                 u, v = r.sample(L, 2)
                 setq(name, u, r.randrange(len(ref['lin'][u])), v, r.randrange(len(ref['lin'][v])), q4(r))
     edits('d', r.randint(3, 9))
+    ncon = r.choice([0, 1, 1, 2])
+    for _ in range(ncon):
+        if not state['bad']:
+            constraint('d', r.random() < .3)
+    if ncon and not state['bad']:
+        state['cls'] = 'pair edits, then a penalty constraint over a subset of the variables'
+        edits('d', r.randint(0, 2))
     if state['bad']:
         return lines, state
     how = r.choice(['copy', 'file', 'vectors', 'relabel'])
@@ -708,9 +773,11 @@ def dqm_history(r):
         new = dict(labels=[mp[v] for v in src['labels']], lin={mp[v]: list(x) for v, x in src['lin'].items()},
                    quad={(mp[u], a, mp[v], b): x for (u, a, v, b), x in src['quad'].items()})
         refs['n'] = new; do('n = d.relabel_variables(%r, inplace=False)' % (mp,), 'DiscreteQuadraticModel.relabel_variables(inplace=False)')
-    state['cls'] = 'new discrete model by ' + how
+    state['cls'] = 'new discrete model by ' + how + (' after a penalty constraint' if ncon else '')
     site = state['site']
     edits('n', r.randint(2, 5))
+    if r.random() < .3 and not state['bad']:
+        constraint('n', r.random() < .3)
     state['site'] = site
     return lines, state
 
@@ -769,6 +836,8 @@ def main():
         lines, state = dqm_history(r)
         n += 1
         tick('pyseq:dqm:' + state.get('cls', 'construction'))
+        if state.get('crowded'):
+            tick('pyseq:dqm:constraint on a member that already has as many outside neighbours as the constraint has other members')
         ticks['pyseq-lines'] = ticks.get('pyseq-lines', 0) + len(lines)
         if state['bad']:
             out.append(dict(site=state['site'], cls=state.get('cls', 'discrete model') + ' (' + state['bad'][0] + ')', what=state['bad'][1],
